@@ -23,6 +23,8 @@ def run (s : Svc) (args : List String) : Svc × String :=
   | ["svc.call", id] => let (s', o) := step s (.call id.toNat!); (s', outStr o)
   | ["svc.term", id, arg] => let (s', o) := step s (.terminate id.toNat! arg.toNat!); (s', outStr o)
   | ["svc.sub", id, h] => let (s', o) := step s (.subscribe id.toNat! h.toNat!); (s', outStr o)
+  -- the same subscription made on the connection of the previous subscriber, to another signal
+  | ["svc.sub", id, h, _] => let (s', o) := step s (.subscribe id.toNat! h.toNat!); (s', outStr o)
   | ["svc.state"] => (s, stateStr s)
   | ["svc.race", _, _] => ({}, "ok")   -- removal is one atomic action of the model (terminate_once)
   | _ => (s, "bad-op")
